@@ -16,6 +16,7 @@ from .. import runobs as R
 from .. import realproc as RP
 
 EXEC_INVS = ["C01", "C02", "C03", "C04", "C09", "PipeMatchesList", "SlotStack", "WaitingCounts"]
+MODEL_WAKEUP_FD = True   # SigchldHelper uses signal.set_wakeup_fd and wait() loops (D14 repaired)
 MODEL_SECOND_REAPER = False  # the Popen object is kept alive in the handle (D7 repaired)
 
 
@@ -30,6 +31,7 @@ def exec_cfg(name, n, kinds, maxjobs, stops, launchfail, second_reaper, invs=EXE
         f.write("CONSTANT ExitCodes = {0, 1}\n")
         f.write("CONSTANT LaunchFail = %s\n" % ("TRUE" if launchfail else "FALSE"))
         f.write("CONSTANT SecondReaper = %s\n" % ("TRUE" if second_reaper else "FALSE"))
+        f.write("CONSTANT WakeupFd = %s\n" % ("TRUE" if MODEL_WAKEUP_FD else "FALSE"))
         f.write("CONSTANT AllowAbort = %s\n" % ("TRUE" if allow_abort else "FALSE"))
         f.write("SPECIFICATION Spec\n")
         for i in invs:
@@ -43,7 +45,13 @@ def exec_cfg(name, n, kinds, maxjobs, stops, launchfail, second_reaper, invs=EXE
 def model_check(rep, tier, prop, second_reaper):
     """TLC on Executor.tla. Returns (TlcResult, violated invariant names)."""
     if tier == "quick":
-        cfg = exec_cfg("_gen_Exec_%s.cfg" % prop, 3, ["exp", "cmd", "group"], 2, [False, True], True, second_reaper)
+        # each check model-checks the slice of the configuration space its property is about (C09: all of it)
+        kinds, maxjobs, stops, lfail = {
+            "C01": (["exp", "cmd", "group"], 2, [False], False),
+            "C03": (["cmd", "group"], 2, [False, True], True),
+            "C04": (["cmd", "group"], 3, [False], False),
+        }.get(prop, (["exp", "cmd", "group"], 2, [False, True], True))
+        cfg = exec_cfg("_gen_Exec_%s.cfg" % prop, 3, kinds, maxjobs, stops, lfail, second_reaper)
         res = C.run_tlc("Executor.tla", cfg=cfg, timeout=1200)
     else:
         cfg = exec_cfg("_gen_Exec_%s.cfg" % prop, 3, ["exp", "cmd", "group", "combine"], 3, [False, True], True,
@@ -108,7 +116,7 @@ def make_scenarios(rng, tier, focus, count):
                     fl.append(ident)
         sched = {"seed": rng.randrange(1 << 30), "codes": codes, "fail_launch": fl,
                  "p_exit": rng.choice([0.1, 0.25, 0.6, 0.9]), "p_deliver": rng.choice([0.15, 0.5, 0.9]),
-                 "allow_steal": focus == "reap"}
+                 "allow_steal": focus == "reap", "allow_late": focus == "reap"}
         if k % 5 == 4:
             # mixed batch: several parallel roots exit (some failing, some not) before ONE handler run reaps them all; each
             # root has its own dependent, so a completion attributed to the wrong task / with the wrong status shows
@@ -125,7 +133,7 @@ def make_scenarios(rng, tier, focus, count):
             for t in failing:
                 codes[RC.ident_of(pkgs, t)] = rng.choice([1, 2, 255, {"signal": 9}])
             sched = {"seed": rng.randrange(1 << 30), "codes": codes, "fail_launch": [], "p_exit": 0.9,
-                     "p_deliver": rng.choice([0.05, 0.1, 0.2]), "allow_steal": focus == "reap"}
+                     "p_deliver": rng.choice([0.05, 0.1, 0.2]), "allow_steal": focus == "reap", "allow_late": focus == "reap"}
             stop = False
         if focus == "reap" and rng.random() < 0.3:
             sched["unrelated"] = True
@@ -181,7 +189,7 @@ def dfs_scenarios(job):
 
 def run_family(prop, clauses, tier, focus, count_quick, count_thorough, sig_fn=None, dfs=False):
     rep = C.Report(prop, tier, "model_checking")
-    rng = random.Random(rep.seed * 7919 + hash(prop) % 1000)
+    rng = random.Random(rep.seed * 7919 + int(prop[1:]))
     RC.warm()
     mc = model_check(rep, tier, prop, MODEL_SECOND_REAPER)
     if rep.machinery_errors:
